@@ -7,6 +7,7 @@
                          non-zero TransactionID; SendAnswer posts the answer unchanged
      X.client-transport  HTTP POST, JSON content type, the configured Authorization header
      X.client-payload    everything but the base payload reaches the peer as the caller gave it
+     X.client-ids        GetSenderID / GetReceiverID / IsAsync report the configuration
      X.client-result     error <=> reply undecodable or ResultCode # Success; the returned answer is the peer's *)
 EXTENDS Integers, Sequences, SequencesExt, FiniteSets, TLC, Json, IOUtils, BackendClient
 
@@ -36,7 +37,8 @@ Fails(e) ==
   IF e.ev = "hang" THEN <<"X.hang">>
   ELSE IF e.ev # "client" THEN <<"unknown-event">>
   ELSE IF e.panic # "" \/ ~e.seen.ok THEN <<"X.client-total">>
-  ELSE IF e.method \in RequestMethods THEN ReqFails(e) ELSE AnsFails(e)
+  ELSE Tag(e.ids.sender = e.cfg.sender /\ e.ids.receiver = e.cfg.receiver /\ ~e.ids.async, "X.client-ids")    \* the client reports its configuration
+       \o (IF e.method \in RequestMethods THEN ReqFails(e) ELSE AnsFails(e))
 
 Init == l = 1 /\ nfail = 0
 Next == /\ l <= Len(Tr)
